@@ -253,9 +253,15 @@ def run_once(rundir, truth, paths, opts, sched=None, fault=None, bufsize=8192, a
     return r
 
 
-def summarize(r, rundir, truth, want=(), oracles=()):
+def summarize(r, rundir, truth, want=(), oracles=(), only_own=False):
     chroms = [c for c, _ in truth["chroms"]]
     files, residue = outputs.collect(r["outdir"], chroms)
+    if only_own and r.get("prefixes"):
+        # the output folder has a pre-history: result folders of experiments the run under test does not have (other experiment
+        # names of the earlier run) are leftovers of that run, not outputs of this one
+        own = set(r["prefixes"])
+        files = {k: v for k, v in files.items() if "/" not in k or k.split("/")[0] in own}
+        residue = [k for k in residue if "/" not in k or k.split("/")[0] in own]
     res = {
         "exit": r["exit"], "crashed": r["crashed"], "events": r["events"], "steps": r["steps"],
         "harness_error": r["harness_error"], "trace_sha": simrun.trace_digest(r["trace"]),
@@ -317,7 +323,7 @@ def pipeline(args):
                      logname="first.log")
         r = run_once(rundir, truth, paths, args.get("opts"), sched=args.get("sched"), fault=args.get("fault"),
                      bufsize=args.get("bufsize", 8192))
-        res = summarize(r, rundir, truth, want=args.get("want", ()), oracles=args.get("oracles", ()))
+        res = summarize(r, rundir, truth, want=args.get("want", ()), oracles=args.get("oracles", ()), only_own=bool(args.get("pre")))
         res["inputs_sha"] = workload.digest_inputs(indir) if args.get("inputs_sha") else None
         res["wall"] = time.time() - t0
         return res
@@ -394,7 +400,7 @@ def crash_resume(args):
             r3 = run_once(rundir, truth, paths, args.get("opts"), sched=rs.get("sched"), fault=None,
                           bufsize=rs.get("bufsize", args.get("bufsize", 8192)), argv_override=argv, logname="stdout.log")
             r3["orig_argv"] = stt["orig_argv"]
-            res = summarize(r3, rundir, truth, want=args.get("want", ()), oracles=args.get("oracles", ()))
+            res = summarize(r3, rundir, truth, want=args.get("want", ()), oracles=args.get("oracles", ()), only_own=bool(args.get("pre")))
             res["crash"] = stt["crash"]
             res["wall"] = time.time() - t0
             return res
@@ -464,7 +470,7 @@ def crash_resume(args):
         r3 = run_once(rundir, truth, paths, args.get("opts"), sched=rs.get("sched"), fault=None,
                       bufsize=rs.get("bufsize", args.get("bufsize", 8192)), argv_override=argv, logname="stdout.log")
         r3["orig_argv"] = r1["argv"]
-        res = summarize(r3, rundir, truth, want=args.get("want", ()), oracles=args.get("oracles", ()))
+        res = summarize(r3, rundir, truth, want=args.get("want", ()), oracles=args.get("oracles", ()), only_own=bool(args.get("pre")))
         res.update(out)
         res["wall"] = time.time() - t0
         return res
